@@ -11,15 +11,15 @@ The table itself is NOT written here: it is measured from the live implementatio
 `tableClosedExcept` (a total, structurally recursive Boolean function the kernel can evaluate) and
 the generic theorems about it (Props/C20.lean) live in the library.
 
-Layout classes (classification of `DataFrame.index`, `harness/c20.py: classify`):
+Whether a *named* index has duplicate values depends on the data (a frame index is unique iff
+there is one particle), so it is not part of the class; for unnamed indexes it is inherited from
+the caller's table and kept as a class.  Layout classes (classification of `DataFrame.index`, `harness/c20.py: classify`):
   range            unnamed RangeIndex / 0..n-1           (what `reset_index(drop=True)` gives)
   labels           unnamed, unique, not 0..n-1           (e.g. after `sort_values`)
   dupLabels        unnamed with duplicate labels         (e.g. `pd.concat` of per-frame tables)
-  frameIdx         named 'frame', duplicates             (filtering.py:28,58 `set_index('frame', drop=False)`)
-  frameIdxU        named 'frame', unique values
+  frameIdx         named 'frame'                         (filtering.py:28,58 `set_index('frame', drop=False)`)
   particleIdx      named 'particle'
-  otherNamed       any other name, unique                (utils.py:288 `df.index.name += '_index'`)
-  otherNamedDup    any other name, duplicates
+  otherNamed       any other name                        (utils.py:288 `df.index.name += '_index'`)
   frameParticleMI  MultiIndex with levels named 'frame' and 'particle' (motion.py:313)
   frameMI          MultiIndex with a level named 'frame', none named 'particle'
   particleMI       MultiIndex with a level named 'particle', none named 'frame'
@@ -30,12 +30,12 @@ No Mathlib imports.
 namespace TrackpyV.Pipeline
 
 inductive Layout
-  | range | labels | dupLabels | frameIdx | frameIdxU | particleIdx | otherNamed | otherNamedDup
+  | range | labels | dupLabels | frameIdx | particleIdx | otherNamed
   | frameParticleMI | frameMI | particleMI | otherMI
 deriving DecidableEq, Repr
 
 def Layout.all : List Layout :=
-  [.range, .labels, .dupLabels, .frameIdx, .frameIdxU, .particleIdx, .otherNamed, .otherNamedDup,
+  [.range, .labels, .dupLabels, .frameIdx, .particleIdx, .otherNamed,
    .frameParticleMI, .frameMI, .particleMI, .otherMI]
 
 /-- stages that return a trajectory table -/
